@@ -491,7 +491,12 @@ def distribute_batch_calls(
             common_args, task.conf.disable_cache_args
         )
         task.logger.debug(f"Pre-serialized {len(pre_serialized_args)} common arguments")
-        other_args = param_list  # type: ignore
+        # bind each call against the signature (defaults included), as the other
+        # submission paths do, so the same call gets the same identity on every path
+        other_args = [
+            task.args(**{**common_args, **params}).kwargs  # type: ignore[dict-item]
+            for params in param_list
+        ]
     else:
         other_args = [a.kwargs for a in prepare_arguments(task, param_list)]
 
